@@ -24,6 +24,10 @@ PaysRequested == (alg.ok /\ inp.ratearg >= 0) => alg.fee >= FeeAt(inp.ratearg, a
 WithinMax == alg.ok => alg.fee <= inp.maxfee
 \* the replacement's feerate is above the original's (what the mempool's feerate-diagram check needs for a lone transaction)
 HigherRate == alg.ok => alg.fee * inp.sold > inp.oldfee * alg.vsize
+\* NOT an invariant of the code as it is: the wallet compares feerates per vbyte (weights rounded up), the mempool's feerate-diagram
+\* check compares exact weights. With w1 / w2 weight units of rounding slack in the original / the replacement, a replacement that had
+\* to add inputs (grow > 0) at a feerate just above the original's can have the LOWER feerate per weight unit.
+HigherRateWeight == \A w1 \in 0..3, w2 \in 0..3 : alg.ok => alg.fee * (4 * inp.sold - w1) > inp.oldfee * (4 * alg.vsize - w2)
 WitnessRefusedLow == ~(~alg.ok /\ inp.ratearg >= 0 /\ FeeAt(inp.ratearg, inp.s0) < inp.oldfee + FeeAt(inp.incr, inp.s0))
 WitnessGrown == ~(alg.ok /\ inp.grow > 0 /\ inp.ratearg >= 0)
 ====
